@@ -1,5 +1,5 @@
 (* C09 model runner.  One case per line:
-     <id> s<caseseed> n<N> <node>*N : <op>*
+     <id> s<caseseed> k<0|1> n<N> <node>*N : <op>*     (k1: GC keeps the digest references of live descriptors)
    node = <kind 0..5>,<subject|->,<succ.succ...|->  (kind: 0 blob 1 image 2 docker 3 index 4 dockerl 5 artifact)
    op = P<n> T<n>.<t> U<t> D<n> G A<0|1> S<id>.<alg 0 sha256 1 sha512 2 sha384 3 other>.<valid>
    Output: <id> then, per op, <op>=<res>/B:..../I:..../P:..../S:....  (see harness/cmd/c09). *)
@@ -24,7 +24,8 @@ let () =
   let cfg = if Array.length Sys.argv > 1 && Sys.argv.(1) = "orig" then cfg_orig else cfg_fixed in
   iter_lines (fun l ->
     match split_ws l with
-    | id :: _seed :: nn :: rest when String.length nn > 1 && nn.[0] = 'n' ->
+    | id :: _seed :: kl :: nn :: rest when String.length nn > 1 && nn.[0] = 'n' ->
+      let kl = (kl = "k1") in
       let n = int_of_string (String.sub nn 1 (String.length nn - 1)) in
       let rec take k l acc = if k = 0 then (List.rev acc, l) else match l with x :: r -> take (k - 1) r (x :: acc) | [] -> failwith "short" in
       let (nodes, rest) = take n rest [] in
@@ -52,7 +53,7 @@ let () =
             | 'A' -> OAuto (arg = "1")
             | 'S' -> (match ints_of '.' arg with [a; k; v] -> OStray { s_id = nat_of_int a; s_alg = nat_of_int k; s_valid = (v = 1) } | _ -> failwith "S")
             | _ -> failwith "op" in
-          let (st', r) = step succ subject manifest cfg !st op in
+          let (st', r) = step succ subject manifest cfg kl !st op in
           st := st';
           if r = EHang then begin stop := true; Buffer.add_string out (Printf.sprintf " %s=hang" o) end
           else Buffer.add_string out (Printf.sprintf " %s=%s/%s" o (show_res r) (observe succ n st'))
